@@ -225,6 +225,14 @@ ADDED6 = {
 for k, v in ADDED6.items():
     CLAIMS[k]["text"] += v
 
+ADDED7 = {
+ "C01": " After wave 6: R-RUNESTR (no rune sequence of a node is built by way of a Go string).",
+ "C05": " After wave 6: R-RUNESTR, R-BALTRANSP (ending backtracking is removed from the content of a plain capture only, never of a balancing group), R-ENDDIR (an end anchor lets only a left-to-right loop become atomic).",
+ "C15": " After wave 6: R-ENDDIR.",
+}
+for k, v in ADDED7.items():
+    CLAIMS[k]["text"] += v
+
 CLAIMS["C06"] = dict(
    technique="static analysis: method-set / signature comparison on go/types against the standard library's *regexp.Regexp, SSA unit taint (rune positions vs byte offsets) over package compat, guard dominance on go/cfg for groups without captures, delegation check of the find-all limit, sibling agreement of the parser's dialect predicates",
    text="Decides structural necessary conditions of the adapter returning what Go's regexp returns: every Match*/Find* method of *regexp.Regexp exists on the adapter with an identical signature and is covered by the compile-time witnesses (R-SURFACE); no value computed from Capture.RuneIndex / RuneLength reaches an []int the adapter fills or a bound of a byte slice except through an offset table (R-BYTEUNIT), byte offsets are never compared with rune indexes (R-UNITCMP) and the lazily built offset table is created at the first rune that is not one byte wide (R-LAZYTABLE); a group without captures is reported as -1 pairs / nil / empty and never sliced (R-UNSETPAIR); n == 0 gives nil in every find-all method (R-NZERO); the first empty match is kept and the empty-match-next-to-previous rule is direction-aware (R-PREVINIT, R-DIRFOLD); the RE2 dialect switches of \\w \\d \\s, their forms inside a class and \\b / \\B are taken under the same option predicates (R-DIALECTSIB). It does NOT decide the equality itself: what is matched (leftmost-first vs backtracking semantics, class contents, anchors) is outside this technique.",
